@@ -30,7 +30,7 @@ pub struct Cmd {
 
 /// A string that is *not* a legal move at `p`, of the requested flavour.
 pub fn corrupt_move(p: &Pos, legal: &[Mv], e: &mut Entropy) -> Option<(String, &'static str)> {
-    let kinds = 12;
+    let kinds = 15;
     for _ in 0..6 {
         let k = e.pick(kinds);
         let cand: Option<(String, &'static str)> = match k {
@@ -86,6 +86,34 @@ pub fn corrupt_move(p: &Pos, legal: &[Mv], e: &mut Entropy) -> Option<(String, &
             8 => Some((if p.wtm { "e1h1" } else { "e8h8" }.into(), "king-takes-rook-castling")),
             9 => Some(("e2".into(), "too-short")),
             10 => Some(("e2e9".into(), "off-board")),
+            11 => {
+                // a legal move with something appended (for a promotion: after the suffix)
+                if legal.is_empty() {
+                    None
+                } else {
+                    let m = legal[e.pick(legal.len())].uci();
+                    let extra = ["q", "x", "n", "1", "qq", "="][e.pick(6)];
+                    Some((format!("{m}{extra}"), "legal-move-plus-trailing-characters"))
+                }
+            }
+            12 => {
+                // a promotion with extra characters after its suffix, when one is legal
+                legal.iter().find(|m| m.is_promo()).map(|m| (format!("{}{}", m.uci(), ["q", "x", "r8"][e.pick(3)]), "promotion-plus-trailing-characters"))
+            }
+            13 => {
+                // two legal moves glued into one token
+                if legal.is_empty() {
+                    None
+                } else {
+                    let m = legal[e.pick(legal.len())];
+                    let next = p.make(m).legal_moves();
+                    if next.is_empty() {
+                        None
+                    } else {
+                        Some((format!("{}{}", m.uci(), next[e.pick(next.len())].uci()), "two-moves-glued"))
+                    }
+                }
+            }
             _ => Some(("z9z9".into(), "garbage")),
         };
         if let Some((s, kind)) = cand {
@@ -517,7 +545,7 @@ pub fn parse_position(text: &str) -> Option<Game> {
 }
 
 pub const LEVEL: &str = "exploration";
-pub const RULE: &str = "UCI sessions of 1..8 commands from {position startpos|fen F [moves ...] (F in 6-field or 4-field form), the previous position command again, extended by 1..3 more moves (as a GUI re-sends a growing game) or shortened by 1..3 moves (take-back), ucinewgame, isready}; move lists are legal games (up to 60 plies, special-move-weighted so castling, e.p. and all promotion suffixes occur as strings) and, in ~1/3 of the position commands, one move is corrupted (pseudo-legal but leaves the king in check, opponent's move, move of a missing piece, promotion without suffix, suffix on a non-promotion, uppercase, 0000, O-O, e1h1, e2, e2e9, z9z9 - each verified by the oracle not to be legal there). Layer a (in-process session, hook H4): after EVERY command the session board == the model (last accepted position; startpos initially and after ucinewgame) in all components, its legal moves/check status == oracle, key == key of the oracle FEN, earlier positions of the accepted game remembered, and Err returned exactly for corrupted position commands. Plus four very long legal games (820..3000 plies, command lines of 4-15 kB) in both layers. Layer b (real binary): after every position/ucinewgame command a 'go nodes 2000' probe's bestmove must be legal in the model position (probes whose move is also legal in the previous position are counted as weak). Non-trivial = session with a special move in a list, a corruption, or more than one command; distinct by session text.";
+pub const RULE: &str = "UCI sessions of 1..8 commands from {position startpos|fen F [moves ...] (F in 6-field or 4-field form), the previous position command again, extended by 1..3 more moves (as a GUI re-sends a growing game) or shortened by 1..3 moves (take-back), ucinewgame, isready}; move lists are legal games (up to 60 plies, special-move-weighted so castling, e.p. and all promotion suffixes occur as strings) and, in ~1/3 of the position commands, one move is corrupted (pseudo-legal but leaves the king in check, opponent's move, move of a missing piece, promotion without suffix, suffix on a non-promotion, uppercase, 0000, O-O, e1h1, e2, e2e9, z9z9, a legal move or promotion with trailing characters, two moves glued into one token - each verified by the oracle not to be legal there). Layer a (in-process session, hook H4): after EVERY command the session board == the model (last accepted position; startpos initially and after ucinewgame) in all components, its legal moves/check status == oracle, key == key of the oracle FEN, earlier positions of the accepted game remembered, and Err returned exactly for corrupted position commands. Plus four very long legal games (820..3000 plies, command lines of 4-15 kB) in both layers. Layer b (real binary): after every position/ucinewgame command a 'go nodes 2000' probe's bestmove must be legal in the model position (probes whose move is also legal in the previous position are counted as weak). Non-trivial = session with a special move in a list, a corruption, or more than one command; distinct by session text.";
 pub const ASSUMPTIONS: &[&str] = &[
     "rules oracle + session model (last accepted position)",
     "shapes whose meaning the statement leaves open (junk where 'moves' belongs, empty 'moves' tail) are not generated here; C15 sends them and asserts liveness only",
